@@ -92,11 +92,22 @@ def construct(GaussianKDE, kde_mod, data, bw, a, sd0):
         return GaussianKDE(data, cross_validation=True)
     if mode == "cv-sub":
         saved = kde_mod.random
-        kde_mod.random = scripted_random(bw["script"])
+        calls = []
+        fn = scripted_random(bw["script"])
+
+        def counted(size=None):
+            calls.append(size)
+            return fn(size=size)
+
+        kde_mod.random = counted
         try:
-            return GaussianKDE(data, cross_validation=True, max_cv_samples=bw["max"])
+            k = GaussianKDE(data, cross_validation=True, max_cv_samples=bw["max"])
         finally:
             kde_mod.random = saved
+        if not calls:
+            # the sub-sampling no longer draws through inference.pdf.kde.random: the seam must be extended
+            raise HarnessError("cross-validation sub-sampling did not use the scripted generator (inference.pdf.kde.random)")
+        return k
     raise HarnessError(f"unknown bandwidth mode {mode}")
 
 
